@@ -267,7 +267,7 @@ func (e *Env) setupJS() string {
 	b.WriteString("__reg(R,'R');")
 	switch r.Join {
 	case "fn":
-		b.WriteString("var JF=function(){L('join:'+arguments.length+':'+__S(arguments[0])+':'+__S(this));return 'J'};__reg(JF,'JF');R.join=JF;")
+		b.WriteString("var JF=function(){L('join:'+arguments.length+':'+(arguments.length>0?__S(arguments[0]):'-')+':'+__S(this));return 'J'};__reg(JF,'JF');R.join=JF;")
 	case "str":
 		b.WriteString("R.join='nojoin';")
 	}
@@ -399,11 +399,11 @@ func (e *Env) build() *world {
 	switch r.Join {
 	case "fn":
 		jf := m.NewFunction("JF", func(m *m08.Machine, this m08.Value, args []m08.Value) m08.Value {
-			a0 := m08.Undefined
+			a0 := "-" // arguments[0] of an empty arguments object would be looked up on Object.prototype
 			if len(args) > 0 {
-				a0 = args[0]
+				a0 = m08.Ser(args[0])
 			}
-			m.L(fmt.Sprintf("join:%d:%s:%s", len(args), m08.Ser(a0), m08.Ser(this)))
+			m.L(fmt.Sprintf("join:%d:%s:%s", len(args), a0, m08.Ser(this)))
 			return m08.StrV("J")
 		})
 		w.named["JF"] = jf
